@@ -6,12 +6,24 @@
    (rename id "name") is taken for bit i of a bus; folding multibit_add_cable over the bits of a bus
    in ANY order with ANY bits missing gives one cable with bit i at position i - lower and empty
    wires in the gaps; a run of bit nets is read as exactly that cable; (member p x) reads pin x.
-   What is NOT proved: the whole-file statements [C05_full] (soundness/completeness of the reader
-   against a declarative semantics, well-formedness of the result). They are evaluated on the
-   implementation by harness/edif_check.py (test evidence, not proof). *)
+   Whole file (Fmt/EdifFile.v: elab_file, the reader construct by construct, tied to sdn.parse on every
+   run by harness/edif_file.py): [C05_full_reader_wf] every result is well formed, for ALL
+   documents; [C05_full_reader_sound] on supported documents the result is what the document
+   denotes ([denote_file], Fmt/EdifFileDenote.v); [C05_reader_sound_all] for all documents
+   everything but the cable assembly is what the document denotes and the cables are read_nets of
+   the denoted nets; [C05_nets_sound]/[C05_nets_complete] the cable assembly of one cell is sound
+   and complete for the declarative meaning under [nets_ok].
+   What is NOT proved: the completeness half of [C05_full] at file level (supported d -> denote d n
+   -> the reader accepts d with the same structure): it needs the converse of every construct
+   lemma of Proofs/EdifFileSound.v plus "declared before use" in [supported]; the first half of
+   [C05_full] for UNSUPPORTED documents is false on the faithful model (open findings C05-K10,
+   K11, K13): [C05_full_refuted], from a computed witness, which is why [supported] excludes them. *)
+From Coq Require Import String.
 From Coq Require Import List NArith Bool Permutation.
-From SV Require Import Base.Base Fmt.EdifLex Fmt.EdifName Fmt.EdifCable Fmt.EdifBus
-  Proofs.EdifLexProofs Proofs.EdifNameProofs Proofs.EdifCableProofs Proofs.EdifBusProofs.
+From SV Require Import Base.Base Fmt.EdifLex Fmt.EdifName Fmt.EdifCable Fmt.EdifBus Fmt.EdifNets
+  Fmt.EdifNetsSpec Fmt.EdifFile Fmt.EdifFileSpec Fmt.EdifFileDenote
+  Proofs.EdifLexProofs Proofs.EdifNameProofs Proofs.EdifCableProofs Proofs.EdifBusProofs
+  Proofs.EdifFileWf Proofs.EdifNetsDenote Proofs.EdifFileSound Proofs.EdifFileText Proofs.EdifFileWitness.
 Import ListNotations.
 
 (* tokenizer + reader: text printed from a document (any trailing delimiter) tokenizes to the
@@ -140,7 +152,7 @@ Theorem C05_member_reads_position : forall haswire pins k p,
 Proof. exact member_index_inverse. Qed.
 Print Assumptions C05_member_reads_position.
 
-(* The statements at full strength, over a whole-file model that does not exist yet. NOT PROVED. *)
+(* The statements at full strength over an abstract whole-file reader; instantiated below. *)
 Record edif_reader := {
   nv : Type;
   supported : sexp -> Prop;           (* the supported subset of EDIF 2 0 0 *)
@@ -152,3 +164,105 @@ Record edif_reader := {
 Definition C05_full (M : edif_reader) : Prop :=
   (forall d n, elab M d = Some n -> denote M d n /\ wf M n) /\
   (forall d n, supported M d -> denote M d n -> exists n', elab M d = Some n' /\ same_struct M n n').
+
+(* ---- the whole-file model ---- *)
+Definition edif_file_reader : edif_reader := {|
+  nv := nvfile;
+  supported := fun d => EdifFileDenote.supported d = true;
+  denote := denote_file;
+  same_struct := @eq nvfile;
+  wf := wf_core;
+  elab := fun d => match elab_file d with Ok n => Some n | Err _ => None end |}.
+
+(* every document: what the reader returns is well formed (references resolve inside the result,
+   every pin on a wire exists, no pin on two wires, sibling identifiers distinct, top declared) *)
+Theorem C05_full_reader_wf : forall d n, elab edif_file_reader d = Some n -> wf edif_file_reader n.
+Proof.
+  intros d n. cbn. destruct (elab_file d) as [m|] eqn:E; [|discriminate].
+  intro H; inversion H; subst. exact (elab_file_wf_core d n E).
+Qed.
+Print Assumptions C05_full_reader_wf.
+
+(* supported documents: the result is what the document denotes - first half of C05_full *)
+Theorem C05_full_reader_sound : forall d n, supported edif_file_reader d ->
+  elab edif_file_reader d = Some n -> denote edif_file_reader d n /\ wf edif_file_reader n.
+Proof.
+  intros d n Hs. cbn in *. destruct (elab_file d) as [m|] eqn:E; [|discriminate].
+  intro H; inversion H; subst. split; [exact (elab_file_sound d n Hs E)|exact (elab_file_wf_core d n E)].
+Qed.
+Print Assumptions C05_full_reader_sound.
+
+(* WITHOUT the restriction to supported documents the first half of C05_full is false on the
+   faithful model: the document [dup_doc] (bits x[0], x[1], then x[0] again) is accepted and its
+   result is not what it denotes; [supported] excludes exactly this shape (finding C05-K11) *)
+Theorem C05_full_refuted : ~ C05_full edif_file_reader.
+Proof.
+  intros [H _]. destruct (H dup_doc dup_res) as [Hd _].
+  - change (match elab_file dup_doc with Ok n => Some n | Err _ => None end = Some dup_res).
+    rewrite dup_accepted. reflexivity.
+  - exact (dup_not_denoted Hd).
+Qed.
+Print Assumptions C05_full_refuted.
+
+Example C05_refuting_document_is_unsupported : EdifFileDenote.supported dup_doc = false.
+Proof. vm_compute. reflexivity. Qed.
+
+(* all documents: objects, references, pin designators and top are what the document declares; the
+   cables of each cell are read_nets of the denoted nets *)
+Theorem C05_reader_sound_all : forall d n, elab_file d = Ok n -> denote_file_with conn_read d n.
+Proof. exact elab_file_sound_read. Qed.
+Print Assumptions C05_reader_sound_all.
+
+(* from the characters of the file: for a document printed in the composer's layout, what the
+   token-level entry of the model returns is sound for the document *)
+Theorem C05_text_sound : forall l n, sexp_ok (SList l) = true -> EdifFileDenote.supported (SList l) = true ->
+  elab_text (print (SList l)) = Ok n -> denote_file (SList l) n /\ wf_core n.
+Proof. exact elab_text_print_sound. Qed.
+Print Assumptions C05_text_sound.
+
+(* the nets of one cell: the reader's assembly is the declarative meaning, and it never fails on
+   nets that satisfy nets_ok and whose names do not make separate_name_and_index raise *)
+Theorem C05_nets_sound : forall (P : Type) (nets : list (net P)) (s : list (entry P)),
+  nets_ok nets -> read_nets [] nets = Some s -> denote_conn nets s.
+Proof. exact nets_sound. Qed.
+Print Assumptions C05_nets_sound.
+
+Theorem C05_nets_complete : forall (P : Type) (nets : list (net P)),
+  nets_ok nets -> (forall nt, In nt nets -> net_bit (n_ident nt) (n_name nt) <> None) ->
+  exists s, read_nets [] nets = Some s.
+Proof. exact nets_complete. Qed.
+Print Assumptions C05_nets_complete.
+
+(* a concrete supported document: two libraries, an array port, a renamed instance, member portRefs
+   with out-of-order bus bits; it is accepted, every instance is referenced, the bus q of cell top
+   is one array cable of width 2 *)
+Definition C05_example_text : str := s2l
+  "(edif demo (edifVersion 2 0 0) (edifLevel 0) (keywordMap (keywordLevel 0))
+    (external prims (edifLevel 0) (technology (numberDefinition))
+      (cell BUF (cellType GENERIC) (view netlist (viewType NETLIST) (interface (port I (direction INPUT)) (port O (direction OUTPUT))))))
+    (library work (edifLevel 0) (technology (numberDefinition))
+      (cell top (cellType GENERIC) (view netlist (viewType NETLIST)
+        (interface (port a (direction INPUT)) (port (array (rename q ""q[1:0]"") 2) (direction OUTPUT)))
+        (contents (instance u1 (viewRef netlist (cellRef BUF (libraryRef prims))))
+                  (instance (rename u2 ""u[2]"") (viewRef NETLIST (cellRef buf (libraryRef PRIMS))) (property INIT (string ""0F"")))
+                  (net a (joined (portRef a) (portRef I (instanceRef u1)) (portRef I (instanceRef U2))))
+                  (net (rename q_1_ ""q[1]"") (joined (portRef (member q 0)) (portRef O (instanceRef u2))))
+                  (net (rename q_0_ ""q[0]"") (joined (portRef (member q 1)) (portRef O (instanceRef u1)))))))))
+    (design top (cellRef top (libraryRef work))))".
+
+Example C05_example_supported_and_read :
+  match read_first (tokenize C05_example_text) with
+  | Some (d, O) =>
+    EdifFileDenote.supported d = true /\
+    match elab_file d with
+    | Ok n => all_referencedb n = true /\ List.length (nf_libs n) = 2%nat /\ elab_text C05_example_text = Ok n /\
+              match nf_libs n with
+              | [_; W] => match li_cells W with
+                          | [T] => map (fun e => (List.length (c_wires (e_cab e)), c_lower (e_cab e))) (ce_cabs T) = [(1%nat, 0%N); (2%nat, 0%N)]
+                          | _ => False end
+              | _ => False end
+    | Err _ => False
+    end
+  | _ => False
+  end.
+Proof. vm_compute. repeat split; reflexivity. Qed.
